@@ -627,7 +627,7 @@ func boardFacts(a callArgs, bid ptttype.Bid) facts {
 var o2Noted = map[string]bool{}
 
 func noteO2(entry string, a callArgs) {
-	if o2Noted[entry] {
+	if len(o2Noted) > 0 || entry == "IsBoardValidUser" {
 		return
 	}
 	o2Noted[entry] = true
